@@ -52,7 +52,7 @@ Section Inv.
     - unfold size_digit in H.
       destruct (sz * 16 <=? u64_max) eqn:E1; [|discriminate H].
       destruct (sz * 16 + v <=? u64_max) eqn:E2; [|discriminate H].
-      destruct (IH _ _ ltac:(lia) H) as (ds & l & ext & after & Hd & Hl & He & -> & Hb & Hge & Hc).
+      destruct (IH (sz * 16 + v) acc ltac:(lia) H) as (ds & l & ext & after & Hd & Hl & He & -> & Hb & Hge & Hc).
       exists (b :: ds), l, ext, after. cbn [forallb app]. rewrite hexnum_cons.
       unfold is_hex at 1. unfold hexdig. rewrite Hv. repeat split; try assumption. lia.
     - unfold lws_ext_cr in H.
@@ -79,7 +79,7 @@ Section Inv.
     induction buf as [|b buf IH]; intros sz acc Hp H; [discriminate H|].
     cbn [bw bstep] in H. destruct (sz <=? 1) eqn:E.
     - exists [b], buf. unfold lenN. cbn [length app]. repeat split; [lia|exact H].
-    - destruct (IH _ _ ltac:(lia) H) as (data & after & Hl & -> & Hc).
+    - destruct (IH (sz - 1) (acc ++ [b]) ltac:(lia) H) as (data & after & Hl & -> & Hc).
       exists (b :: data), after. unfold lenN in *. cbn [length app]. rewrite <- app_assoc in Hc. cbn [app] in Hc.
       repeat split; [lia|exact Hc].
   Qed.
@@ -115,12 +115,12 @@ Proof.
   { rewrite bw_ctl in * by reflexivity. cbn [cstep] in *. unfold is_hex.
     destruct (hexval b); [split; [exact H|reflexivity]|discriminate H]. }
   destruct Hd as [Hd Hb].
-  destruct (inv_digits _ _ _ _ _ _ ltac:(unfold u64_max; lia) Hd) as (ds & l & ext & after & Hds & Hl & He & Eb & Hmax & _ & Hc).
+  destruct (inv_digits szf rest body (b :: buf) 0 acc ltac:(unfold u64_max; lia) Hd) as (ds & l & ext & after & Hds & Hl & He & Eb & Hmax & _ & Hc).
   assert (Hne : ds <> []).
   { intro; subst ds. cbn [app] in Eb.
     destruct l as [|x l]; [destruct ext as [e|]; cbn [ext_render app] in Eb; inversion Eb; subst b; discriminate Hb|].
     cbn [app forallb] in *. inversion Eb; subst x. apply andb_true_iff in Hl as [Hx _].
-    rewrite (is_lws_not_hex _ Hx) in Hb. unfold is_hex in Hb. rewrite (is_lws_not_hex _ Hx) in Hb. discriminate Hb. }
+    unfold is_hex in Hb. rewrite (is_lws_not_hex _ Hx) in Hb. discriminate Hb. }
   set (line := mk_size_line ds l ext).
   assert (Hwf : size_line_wf line) by (unfold size_line_wf, line; cbn; destruct ext; auto).
   destruct (inv_sizelf _ _ _ _ _ _ Hc) as (after1 & -> & Hk).
@@ -129,7 +129,7 @@ Proof.
     rewrite <- !app_assoc. destruct ext; reflexivity. }
   destruct (0 <? hexnum 0 ds) eqn:Epos.
   - (* a data chunk *)
-    destruct (inv_body _ _ _ _ _ _ ltac:(lia) Hk) as (data & after2 & Hlen & -> & Hk2).
+    destruct (inv_body szf rest body after1 (hexnum 0 ds) acc ltac:(lia) Hk) as (data & after2 & Hlen & -> & Hk2).
     destruct (inv_crlf _ _ _ BodyCr BodyLf _ _ _ (or_introl (conj eq_refl eq_refl)) Hk2) as (more & -> & Hk3).
     assert (Hshort : (length more < n)%nat).
     { assert (length (b :: buf) = length (render_size_line line ++ data ++ 13 :: 10 :: more)) by (rewrite Erender; reflexivity).
